@@ -1,5 +1,112 @@
 """Self-tests of the machinery: setup (imports), determinism, mutation sensitivity, socket model."""
+import concurrent.futures as cf
+import json
+import multiprocessing
+import os
+import shutil
+import subprocess
 import sys
+import time
+
+ROOT = os.path.dirname(os.path.dirname(os.path.abspath(__file__)))
+
+
+def _props():
+    out = []
+    for i in range(1, 21):
+        p = 'C%02d' % i
+        if os.path.exists(os.path.join(ROOT, 'simadb', 'props', p + '.py')):
+            out.append(p)
+    return out
+
+
+def _digests(pid, lo, hi, tier='quick'):
+    from . import batch
+    mod = batch.prop_module(pid)
+    out = []
+    for i in range(lo, hi):
+        seed = batch.run_seed(0, pid, tier, i)
+        o = mod.evaluate(mod.generate(seed, tier))
+        out.append((i, o['digest'], tuple(sorted(v[0] for v in o['violations'])), tuple(sorted(k[0] for k in o.get('known', [])))))
+    return out
+
+
+def _digests_task(a):
+    return _digests(*a)
+
+
+def determinism(args):
+    n = args.runs or 60
+    props = _props()
+    bad = 0
+    t0 = time.time()
+    for pid in props:
+        a = _digests(pid, 0, n)
+        b = _digests(pid, 0, n)
+        # fresh interpreter, another hash seed, single worker
+        env = dict(os.environ)
+        env['PYTHONHASHSEED'] = '4242'
+        code = 'import sys, json; sys.path.insert(0, %r); from simadb.lib import load; load(); from simadb import selftest; print(json.dumps(selftest._digests(%r, 0, %d)))' % (ROOT, pid, n)
+        r = subprocess.run([sys.executable, '-c', code], capture_output=True, text=True, env=env, timeout=1800)
+        if r.returncode != 0:
+            print('HARNESS-ERROR determinism subprocess failed for %s: %s' % (pid, r.stderr[-800:]))
+            return 2
+        c = [tuple(x[:2]) + (tuple(x[2]), tuple(x[3])) for x in json.loads(r.stdout.strip().splitlines()[-1])]
+        # 16 workers, reversed chunk order
+        ctx = multiprocessing.get_context('fork')
+        chunks = [(pid, lo, min(n, lo + 4)) for lo in range(0, n, 4)][::-1]
+        with cf.ProcessPoolExecutor(max_workers=16, mp_context=ctx) as ex:
+            d = sorted(x for part in ex.map(_digests_task, chunks) for x in part)
+        diffs = [i for i in range(n) if not (a[i] == b[i] == c[i] == d[i])]
+        print('%s: %d seeds x (2 in-process, fresh interpreter PYTHONHASHSEED=4242, 16 workers): %s' % (pid, n, 'identical' if not diffs else 'DIVERGED at runs %r' % diffs[:10]))
+        bad += len(diffs)
+    print('determinism self-test: %d properties, %d divergences, %.1fs' % (len(props), bad, time.time() - t0))
+    if bad:
+        print('HARNESS-ERROR nondeterministic simulator')
+        return 2
+    return 0
+
+
+def mutants(args):
+    from . import mutate
+    muts = mutate.load_mutants()
+    only = os.environ.get('VERIF_MUTANTS')
+    if only:
+        muts = [m for m in muts if any(m['id'].startswith(x) for x in only.split(','))]
+    with_suite = bool(os.environ.get('VERIF_MUTANTS_SUITE'))
+    missed = []
+    rows = []
+
+    def one(m):
+        try:
+            d = mutate.make_scratch(m, with_tests=with_suite)
+        except ValueError as e:
+            return (m['id'], m['property'], 'STALE', str(e))
+        try:
+            suite = None
+            if with_suite:
+                suite, _ = mutate.run_suite(d)
+            pids = m.get('checks') or [m['property']]
+            res = []
+            for pid in pids:
+                if not os.path.exists(os.path.join(ROOT, 'simadb', 'props', pid + '.py')):
+                    res.append((pid, 'no-check'))
+                    continue
+                code, out = mutate.run_check(d, pid, ['--runs', str(m.get('runs', args.runs or 3000))])
+                res.append((pid, {0: 'MISSED', 1: 'caught', 2: 'harness-error'}.get(code, str(code))))
+            return (m['id'], m['property'], res, suite)
+        finally:
+            shutil.rmtree(d, True)
+
+    with cf.ThreadPoolExecutor(max_workers=4) as ex:
+        for row in ex.map(one, muts):
+            rows.append(row)
+            print(row)
+    for r in rows:
+        if r[2] == 'STALE' or not any(x[1] == 'caught' for x in r[2]):
+            missed.append(r[0])
+    print('mutation self-test: %d mutants, %d not caught: %s' % (len(rows), len(missed), missed))
+    return 0
 
 
 def main(what, args):
@@ -9,5 +116,12 @@ def main(what, args):
         import hypothesis  # noqa: F401  (present in /venv; not used as the engine)
         print('setup ok: adb_shell from %s digest %s' % (L['adb_device'].__file__, repo_digest()))
         return 0
+    if what == 'selftest-determinism':
+        return determinism(args)
+    if what == 'selftest-mutants':
+        return mutants(args)
+    if what == 'selftest-sockmodel':
+        from . import simsock
+        return simsock.validate_against_kernel()
     print('unknown selftest %s' % what)
     return 2
